@@ -123,6 +123,8 @@ def direct_oracle(o, cls, before_line, after_line):
         for k in ("gn", "og", "g"):
             if kv(o, "x" + k) is not None and names_of(o, "x" + k) != names_of(o, k):
                 return f"the graph names read from the statement ({k}) are not the ones its text lists"
+        if kv(o, "xcc") is not None and kv(o, "cc") is not None and kv(o, "xcc") != kv(o, "cc"):
+            return "the CONSTRUCT / DECONSTRUCT template read from the statement is not the template its text writes"
         if kv(o, "xdata") is not None:
             want = []
             for t in kv(o, "xdata").split(";"):
